@@ -68,7 +68,33 @@ def gen_cases(cls, rng, tier):
             lp = rng.choice(loops_for(cls, g.n, True))
             steps += [lp, "snap"]
         cases.append(Case("mR%s%d" % (cls, i), cls, steps, dict(kind="random-scripts")))
+    # container operations, nested searches / loops, comparisons and sizeof called from inside the closure
+    for i in range(8000 if tier == "thorough" else 400):
+        g = sc.random_graph(cls, rng, maxn=6, maxe=10)
+        steps = g.steps() + ["gnew"] + ["gins 0 %d" % u for u in range(g.n) if rng.random() < 0.8]
+        for rep in range(rng.randint(1, 2)):
+            for j in range(rng.randint(0, 2)):
+                steps.append("scr %d %s" % (rng.choice([0, 0, 1, 1, 2, 3, 4]), rng.choice(ops_for(g.keys, g.n))))
+            for j in range(rng.randint(1, 4)):
+                steps.append("scx %d %s" % (rng.choice([0, 0, 0, 1, 1, 2, 3, 4]), extra_step(cls, g.keys, g.n, rng)))
+            lp = rng.choice(loops_for(cls, g.n, True))
+            steps += [lp, "snap"]
+        cases.append(Case("mX%s%d" % (cls, i), cls, steps, dict(kind="nested-and-container-calls")))
     return cases
+
+
+def extra_step(cls, keys, n, rng):
+    k = lambda: rng.choice(list(keys) + [98])
+    u = lambda: rng.randrange(n)
+    r = rng.random()
+    if r < 0.35:
+        return rng.choice(loops_for(cls, n, True))           # a nested loop / search / ordering
+    return rng.choice([
+        "gget 0 %d" % k(), "ghas 0 %d" % k(), "gidx 0 %d" % k(), "glen 0", "gins 0 %d" % u(), "grem 0 %d" % k(),
+        "gcon 0 %d %d %d" % (k(), k(), rng.randint(60, 70)), "gcon 0 %d %d %d" % (k(), k(), rng.randint(60, 70)),
+        "size %d" % u(), "qry %d %d" % (u(), k()), "cmp %d %d" % (u(), u()),
+        "ecmp %d %d %d %d" % (u(), rng.randrange(3), u(), rng.randrange(3)),
+    ])
 
 
 class RefGraph:
@@ -77,6 +103,7 @@ class RefGraph:
         self.cls = cls
         self.keys = []
         self.edges = []     # (u, v, e) in insertion order
+        self.graphs = []    # containers: key -> node index
 
     def apply(self, t):
         op = t[0]
@@ -104,6 +131,26 @@ class RefGraph:
         elif op == "iso":
             u = int(t[1])
             self.edges = [(a, b, e) for (a, b, e) in self.edges if a != u and b != u]
+        elif op == "gnew":
+            self.graphs.append({})
+        elif op == "gins":
+            g, u = self.graphs[int(t[1])], int(t[2])
+            g.setdefault(self.keys[u], u)
+        elif op == "grem":
+            self.graphs[int(t[1])].pop(int(t[2]), None)
+        elif op == "gcon":
+            g = self.graphs[int(t[1])]
+            if int(t[2]) in g and int(t[3]) in g:
+                self.edges.append((g[int(t[2])], g[int(t[3])], int(t[4])))
+
+    def x_may_panic(self, t):
+        """extra steps whose panic is the documented behaviour (indexing a missing key) or the harness's own unwrap"""
+        if t[0] == "gidx":
+            return int(t[2]) not in self.graphs[int(t[1])]
+        if t[0] == "gcon":
+            g = self.graphs[int(t[1])]
+            return int(t[2]) not in g or int(t[3]) not in g
+        return False
 
     def has(self, s, t, e, reversed_=False):
         if s not in self.keys or t not in self.keys:
@@ -132,6 +179,10 @@ def oracle_mut(case, obs):
                 ever.add((int(t[3]), int(t[4]), int(t[5])))
             elif t[2] == "new":
                 keys.append(int(t[3]))
+        elif t[0] == "gcon" or (t[0] == "scx" and t[2] == "gcon"):
+            tt = t if t[0] == "gcon" else t[2:]
+            if int(tt[2]) in keys and int(tt[3]) in keys:
+                ever.add((keys.index(int(tt[2])), keys.index(int(tt[3])), int(tt[4])))
     everk = set()
     for (u, v, e) in ever:
         if u < len(keys) and v < len(keys):
@@ -139,15 +190,18 @@ def oracle_mut(case, obs):
             everk.add((keys[v], keys[u], e))
     ref = RefGraph(case.cls)
     pending = []     # (invocation index, op tokens)
+    xpending = []    # extra script
     for (si, text) in obs:
         st = case.steps[si]
         t = st.split()
         if text.startswith("panic"):
             return "step %d `%s` panicked" % (si, st)
-        if t[0] in ("new", "con", "try", "dis", "iso"):
+        if t[0] in ("new", "con", "try", "dis", "iso", "gnew", "gins", "grem", "gcon"):
             ref.apply(t)
         elif t[0] == "scr":
             pending.append((int(t[1]), t[2:]))
+        elif t[0] == "scx":
+            xpending.append((int(t[1]), t[2:]))
         if st.startswith(("loop", "srch")):
             o = sc.parse_obs(text)
             if o["log"] and any(x.startswith("panic") for x in o["log"]):
@@ -157,17 +211,29 @@ def oracle_mut(case, obs):
                     return "step %d `%s`: yielded %s which is not an edge that ever existed" % (si, st, e)
             # every yielded edge must exist at the moment it is yielded: replay the scripted operations on a reference graph
             rev = (t[0] == "srch" and case.cls == "D" and t[4] == "1")
+            xl = list(o.get("xlog") or [])
             for j, (a, b, e) in enumerate(o["trace"] or []):
                 if not ref.has(a, b, e, reversed_=rev):
                     return "step %d `%s`: invocation %d was handed %s, which does not exist at that moment (the closure's earlier operations removed or replaced it)" % (si, st, j, (a, b, e))
                 for (k, op) in pending:
                     if k == j:
                         ref.apply(op)
+                for (k, op) in xpending:
+                    if k == j:
+                        res = xl.pop(0) if xl else None
+                        if res is None:
+                            return "step %d `%s`: the closure's call `%s` at invocation %d left no result" % (si, st, " ".join(op), j)
+                        if res.startswith("panic") and not ref.x_may_panic(op):
+                            return "step %d `%s`: `%s` called from inside the loop/closure at invocation %d panicked" % (si, st, " ".join(op), j)
+                        if res.startswith(("HANG", "fuel")):
+                            return "step %d `%s`: `%s` called from inside the loop/closure did not return" % (si, st, " ".join(op))
+                        ref.apply(op)
             n_inv = len(o["trace"] or [])
             for (k, op) in pending:
                 if k >= n_inv:
                     pass   # never reached
             pending = []
+            xpending = []
         if st == "snap":
             nodes = nc.parse_snap(text)
             if nodes is None:
